@@ -23,26 +23,45 @@
 (* the chain by the recursive operators IterFrom/ClearFrom/StoreFrom/      *)
 (* EvalFrom/Err2From, transcribed from penalty.py.                         *)
 (*                                                                         *)
-(* Numbers.  Conditions are tables on the probe points 1..NX with small    *)
-(* integer values or ZD (the condition raises ZeroDivisionError there).    *)
-(* k, h are integers (k = INF for the uniform types' default).  A *value*  *)
-(* (what a penalised function returns) is a record                         *)
-(*    [t, n, d, lg]   t = "fin": n/d - SUM_{<<a,q>> in lg} log(a)/q        *)
-(*                    t = "inf" / "ninf" / "nan": IEEE +inf, -inf, NaN     *)
-(* so the Lagrange types' rationals are exact and the logarithm of the     *)
-(* barrier type stays symbolic.  Stored multipliers are integers or INF    *)
-(* (store() at a ZD point records inf).  error(x) is specified by its      *)
-(* square (an integer, or INF).                                            *)
+(* Numbers.  TLC has 32-bit integers only, the implementation has floats:  *)
+(*  * a condition c is a table on the probe points 1..NX of integers or ZD *)
+(*    (the condition raises ZeroDivisionError there); the condition's real *)
+(*    value at x is  CondTab[c][x] / CondDen[c] * 2^se   with se the scale *)
+(*    exponent of the chain (0: plain; -500, -40: tiny but not zero; 40,   *)
+(*    500: huge).  Halves, thirds (not a binary fraction) etc. are tables  *)
+(*    with CondDen = 2, 3.                                                 *)
+(*  * the multiplier k of a level is  k/kd * 2^ke  (k = INF: the uniform   *)
+(*    types' default, an infinite penalty; k = 0 is legal for the types    *)
+(*    that do not divide by k), the growth factor is h/hd (h = 0 and       *)
+(*    h/hd < 1 included).  ke is the chain's multiplier exponent.          *)
+(*  * a *value* (what a penalised function returns, or error(x)^2) is      *)
+(*       [t, n, d, lg, e]                                                  *)
+(*       t = "fin":  ( n/d - SUM_{<<a,p,q>> in lg} log(a)*p/q ) * 2^e      *)
+(*       t = "inf" / "ninf" / "nan":  IEEE +inf, -inf, NaN                 *)
+(*       t = "mix":  a sum of non-zero finite terms with different binary  *)
+(*                   exponents (not rendered; the catalogues avoid it)     *)
+(*    so rationals are exact, the logarithm of the barrier type stays      *)
+(*    symbolic and the powers of two never enter TLC's arithmetic: every   *)
+(*    documented expression is homogeneous in the condition (degree 0, 1   *)
+(*    or 2) and linear in k (barrier: 1/k).                                *)
+(*  * stored multipliers are kept as the integer numerator of the stored   *)
+(*    condition value (same denominator and scale as the level's           *)
+(*    condition) or INF (store() at a ZD point records inf).               *)
 (***************************************************************************)
 EXTENDS Integers, Sequences, FiniteSets, TLC, Json, SequencesExt, IOUtils
 
 CONSTANTS
-  Chains,      \* set of chains: [lv |-> <<[ty,k,h,c], ...>> (outermost first), b |-> base table,
-               \*                 ms |-> bound on the total length of the chain's stored lists]
+  Chains,      \* set of chains: [lv |-> <<[ty,k,kd,h,hd,c], ...>> (outermost first), b |-> base table,
+               \*                 ms |-> bound on the total length of the chain's stored lists,
+               \*                 mz |-> bound on the number of non-zero stored entries of the chain,
+               \*                 se |-> scale exponent of the conditions, ke |-> exponent of the multipliers]
   NX,          \* probe points are 1..NX
-  CondTab,     \* CondTab[c][x]  value of condition c at probe x: an integer or ZD
+  CondTab,     \* CondTab[c][x]  numerator of condition c at probe x: an integer or ZD
+  CondDen,     \* CondDen[c]     its denominator (> 0)
   BaseTab,     \* BaseTab[b][x]  value of undecorated function b at probe x: an integer
   MaxN,        \* bound on the iteration counters
+  IncDom,      \* the counter values from which iter() (the increment) is explored: all of 0..MaxN-1, or a window
+               \* (the long catalogues jump to a two-digit counter by iter(10) and count on from there)
   MaxLen,      \* bound on the length of one stored list
   IterArgs,    \* the explicit arguments i of iter(i)
   StoreArgs    \* the explicit arguments i of store(x, i)
@@ -51,9 +70,10 @@ VARIABLES cid, n, ys, last
 vars == <<cid, n, ys, last>>
 View == <<cid, n, ys>>
 
-INF  == 1000000        \* +inf as a stored multiplier / as k / as a squared error
+INF  == 1000000        \* +inf as a stored multiplier / as k
 ZD   == 999999         \* "condition(x) raises ZeroDivisionError"
 None == -1             \* the default argument i=None
+NoBound == 99          \* mz of a chain whose number of non-zero stored entries is not bounded
 
 (* the nine types, in the order of penalty.py *)
 TypeName == << "quadratic_equality", "linear_equality", "uniform_equality", "uniform_inequality",
@@ -62,42 +82,88 @@ TypeName == << "quadratic_equality", "linear_equality", "uniform_equality", "uni
 QE == 1  LE == 2  UE == 3  UI == 4  BI == 5  QI == 6  LI == 7  LGI == 8  LGE == 9
 IsEq(t)  == t \in {QE, LE, UE, LGE}      \* satisfied iff f(x) == 0   (others: f(x) <= 0)
 IsLag(t) == t \in {LGI, LGE}             \* the types whose store() records a multiplier
+(* degree of homogeneity of the documented expression in the condition value *)
+Deg(t) == IF t \in {UE, UI} THEN 0 ELSE IF t \in {LE, LI} THEN 1 ELSE 2
 
 (* the catalogue as a sequence; cid indexes it.  For parallel runs the harness starts NParts TLC    *)
-(* processes, process MyPart explores the chains with cid % NParts = MyPart (environment variables) *)
-ChainSeq == SetToSeq(Chains)
+(* processes (environment variables); process MyPart explores the chains c with PartOf(c) = MyPart. *)
+(* The sequence is ordered by a rough estimate of the size of a chain's state graph (3^depth        *)
+(* counter vectors, times the stored lists of its Lagrange levels, times the cost of a comparison)  *)
+(* and dealt out greedily (each chain to the part that is lightest so far), so the parts are of    *)
+(* similar size and part 0 is the heaviest.  This concerns only how the work is cut up, not what is *)
+(* explored.                                                                                        *)
 NParts == IF "C15_NPARTS" \in DOMAIN IOEnv THEN atoi(IOEnv.C15_NPARTS) ELSE 1
 MyPart == IF "C15_PART" \in DOMAIN IOEnv THEN atoi(IOEnv.C15_PART) ELSE 0
+RECURSIVE Pow3(_)
+Pow3(e) == IF e = 0 THEN 1 ELSE 3 * Pow3(e - 1)
+Weight(ch) == LET d  == Len(ch.lv)
+                  nl == Cardinality({l \in 1..d : ch.lv[l].ty \in {8, 9}})
+              IN Pow3(d) * d * d * (IF nl = 0 THEN 1 ELSE IF nl = 1 THEN 85 ELSE 169)
+ChainSeq == SortSeq(SetToSeq(Chains), LAMBDA a, b : Weight(a) > Weight(b))
+RECURSIVE Deal(_, _, _)      \* heaviest chain first, each to the part that is lightest so far
+Deal(r, loads, acc) ==
+  IF r > Len(ChainSeq) THEN acc
+  ELSE LET p == CHOOSE q \in 0..(NParts - 1) :
+                   \A q2 \in 0..(NParts - 1) : loads[q] < loads[q2] \/ (loads[q] = loads[q2] /\ q <= q2)
+       IN Deal(r + 1, [loads EXCEPT ![p] = @ + Weight(ChainSeq[r])], Append(acc, p))
+PartSeq == Deal(1, [q \in 0..(NParts - 1) |-> 0], << >>)
+PartOf(c) == PartSeq[c]
 
 -----------------------------------------------------------------------------
-(* arithmetic *)
+(* arithmetic: integers, and rationals as normalised pairs <<num, den>> with den > 0 *)
 Abs(a)    == IF a < 0 THEN -a ELSE a
 Max2(a, b) == IF a >= b THEN a ELSE b
 RECURSIVE Gcd(_, _)
 Gcd(a, b) == IF b = 0 THEN a ELSE Gcd(b, a % b)
 RECURSIVE Pow(_, _)
-Pow(b, e) == IF e = 0 THEN 1 ELSE b * Pow(b, e - 1)
+Pow(b, e) == IF e = 0 THEN 1 ELSE b * Pow(b, e - 1)          \* Pow(0,0) = 1 like pow(0,0)
 
-Rat(a, b) == LET g == Gcd(Abs(a), b) IN [t |-> "fin", n |-> a \div g, d |-> b \div g, lg |-> << >>]  \* b > 0
-IntV(a)   == Rat(a, 1)
-PInf == [t |-> "inf",  n |-> 0, d |-> 1, lg |-> << >>]
-NInf == [t |-> "ninf", n |-> 0, d |-> 1, lg |-> << >>]
-NaN  == [t |-> "nan",  n |-> 0, d |-> 1, lg |-> << >>]
-NegLog(a, q) == [t |-> "fin", n |-> 0, d |-> 1, lg |-> << <<a, q>> >>]      \* -log(a)/q
+(* (the b = 1 branches only spare TLC the gcd on the integer catalogues) *)
+Q(a, b)    == IF b = 1 THEN <<a, 1>> ELSE LET g == Gcd(Abs(a), b) IN <<a \div g, b \div g>>     \* b > 0
+QInt(a)    == <<a, 1>>
+QAdd(p, q) == IF p[2] = 1 /\ q[2] = 1 THEN <<p[1] + q[1], 1>> ELSE Q(p[1] * q[2] + q[1] * p[2], p[2] * q[2])
+QMul(p, q) == IF p[2] = 1 /\ q[2] = 1 THEN <<p[1] * q[1], 1>> ELSE Q(p[1] * q[1], p[2] * q[2])
+QNeg(p)    == <<-p[1], p[2]>>
+QLe(p, q)  == p[1] * q[2] <= q[1] * p[2]
+QSq(p)     == QMul(p, p)
+QAbs(p)    == <<Abs(p[1]), p[2]>>
+QMax0(p)   == IF p[1] > 0 THEN p ELSE <<0, 1>>
+QDivPos(p, q) == Q(p[1] * q[2], p[2] * q[1])                  \* p / q for q > 0
 
-(* IEEE addition *)
+(* values; an exact zero is normalised to exponent 0 so that equal values are equal records *)
+ValQ(q, e) == [t |-> "fin", n |-> q[1], d |-> q[2], lg |-> << >>, e |-> IF q[1] = 0 THEN 0 ELSE e]
+IntV(a)    == ValQ(<<a, 1>>, 0)
+PInf == [t |-> "inf",  n |-> 0, d |-> 1, lg |-> << >>, e |-> 0]
+NInf == [t |-> "ninf", n |-> 0, d |-> 1, lg |-> << >>, e |-> 0]
+NaN  == [t |-> "nan",  n |-> 0, d |-> 1, lg |-> << >>, e |-> 0]
+Mix  == [t |-> "mix",  n |-> 0, d |-> 1, lg |-> << >>, e |-> 0]
+LogV(lg, e) == [t |-> "fin", n |-> 0, d |-> 1, lg |-> lg, e |-> e]
+
+IsZero(v)   == v.t = "fin" /\ v.lg = << >> /\ v.n = 0
+IsPos(v)    == v.t = "inf" \/ (v.t = "fin" /\ v.lg = << >> /\ v.n > 0)
+IsNonPos(v) == v.t = "ninf" \/ (v.t = "fin" /\ v.lg = << >> /\ v.n <= 0)
+
+(* IEEE addition (exact on the finite values as long as they share the binary exponent) *)
 Add(a, b) ==
   IF a.t = "nan" \/ b.t = "nan" THEN NaN
+  ELSE IF a.t = "mix" \/ b.t = "mix" THEN Mix
   ELSE IF a.t = "fin" /\ b.t = "fin"
-       THEN [Rat(a.n * b.d + b.n * a.d, a.d * b.d) EXCEPT !.lg = a.lg \o b.lg]
+       THEN IF IsZero(a) THEN b
+            ELSE IF IsZero(b) THEN a
+            ELSE IF a.e # b.e THEN Mix
+            ELSE LET s == QAdd(<<a.n, a.d>>, <<b.n, b.d>>)
+                     l == a.lg \o b.lg
+                 IN [t |-> "fin", n |-> s[1], d |-> s[2], lg |-> l, e |-> IF s[1] = 0 /\ l = << >> THEN 0 ELSE a.e]
   ELSE IF a.t = "fin" THEN b
   ELSE IF b.t = "fin" THEN a
   ELSE IF a.t = b.t THEN a ELSE NaN
 InfTimes(c) == IF c > 0 THEN PInf ELSE IF c < 0 THEN NInf ELSE NaN           \* inf * c
 
-IsZero(v) == v.t = "fin" /\ v.lg = << >> /\ v.n = 0
-IsPos(v)  == v.t = "inf" \/ (v.t = "fin" /\ v.lg = << >> /\ v.n > 0)
-IsNonPos(v) == v.t = "ninf" \/ (v.t = "fin" /\ v.lg = << >> /\ v.n <= 0)
+(* equality of values up to the order of the symbolic logarithm terms *)
+SeqCount(s, z) == Cardinality({i \in 1..Len(s) : s[i] = z})
+VEq(a, b) == \/ a = b
+             \/ /\ a.t = b.t /\ a.n = b.n /\ a.d = b.d /\ a.e = b.e /\ Len(a.lg) = Len(b.lg)
+                /\ \A i \in 1..Len(a.lg) : SeqCount(a.lg, a.lg[i]) = SeqCount(b.lg, a.lg[i])
 
 -----------------------------------------------------------------------------
 (* the chain under exploration *)
@@ -105,60 +171,79 @@ Chain  == ChainSeq[cid]
 D      == Len(Chain.lv)
 Lv(l)  == Chain.lv[l]
 Ty(l)  == Lv(l).ty
-C(l, x) == CondTab[Lv(l).c][x]
+C(l, x) == CondTab[Lv(l).c][x]                       \* numerator (or ZD)
+Den(l)  == CondDen[Lv(l).c]
+CQ(l, x) == Q(C(l, x), Den(l))                       \* the condition value up to 2^se
 Base(x) == BaseTab[Chain.b][x]
 X == 1..NX
+SE == Chain.se
+KE == Chain.ke
+
+(* pk = k*pow(h,m) up to 2^ke (k # INF) *)
+PK(l, m) == Q(Lv(l).k * Pow(Lv(l).h, m), Lv(l).kd * Pow(Lv(l).hd, m))
+(* the binary exponent of what level l adds *)
+EOf(l) == IF Ty(l) = BI THEN -KE ELSE Deg(Ty(l)) * SE + KE
 
 (* stored(i): 0.0 past the end of the list *)
 StoredAt(l, i) == IF i < Len(ys[l]) THEN ys[l][i + 1] ELSE 0
 
-(* the multipliers: [inf |-> BOOLEAN, v |-> Int] *)
+(* the multipliers: [inf |-> BOOLEAN, v |-> rational], up to 2^(ke+se) *)
 Fin(v) == [inf |-> FALSE, v |-> v]
-MInf   == [inf |-> TRUE,  v |-> 0]
+MInf   == [inf |-> TRUE,  v |-> <<0, 1>>]
 
 (* lagrange_equality:  lam = 0; _k = k; for i in range(n): lam += 2*_k*stored(i); _k *= h *)
+(* (an infinite stored value with a zero _k would make the multiplier NaN: the catalogues   *)
+(*  keep ZD tables away from Lagrange levels with k = 0 or h = 0)                           *)
 RECURSIVE Lam(_, _)
 Lam(l, m) ==
-  IF m = 0 THEN Fin(0)
+  IF m = 0 THEN Fin(<<0, 1>>)
   ELSE LET p == Lam(l, m - 1)
            y == StoredAt(l, m - 1)
        IN IF p.inf \/ y = INF THEN MInf
-          ELSE Fin(p.v + 2 * Lv(l).k * Pow(Lv(l).h, m - 1) * y)
+          ELSE Fin(QAdd(p.v, QMul(QMul(<<2, 1>>, PK(l, m - 1)), Q(y, Den(l)))))
 
-(* lagrange_inequality:  beta += 2*_k*max(-beta/(2*_k), stored(i)); _k *= h *)
+(* lagrange_inequality:  beta += 2*_k*max(-beta/(2*_k), stored(i)); _k *= h   (k, h > 0) *)
 RECURSIVE Beta(_, _)
 Beta(l, m) ==
-  IF m = 0 THEN Fin(0)
-  ELSE LET p  == Beta(l, m - 1)
-           y  == StoredAt(l, m - 1)
-           k2 == 2 * Lv(l).k * Pow(Lv(l).h, m - 1)
-       IN IF p.inf \/ y = INF THEN MInf                  \* max(-inf, y) = y, inf + 2ky = inf
-          ELSE IF k2 * y >= -(p.v) THEN Fin(p.v + k2 * y) \* max(..) = y
-          ELSE Fin(0)                                      \* clipped: beta + 2k(-beta/2k)
+  IF m = 0 THEN Fin(<<0, 1>>)
+  ELSE LET p   == Beta(l, m - 1)
+           y   == StoredAt(l, m - 1)
+           k2y == QMul(QMul(<<2, 1>>, PK(l, m - 1)), Q(y, Den(l)))
+       IN IF p.inf \/ y = INF THEN MInf                        \* max(-inf, y) = y, inf + 2ky = inf
+          ELSE IF QLe(QNeg(p.v), k2y) THEN Fin(QAdd(p.v, k2y)) \* max(..) = y
+          ELSE Fin(<<0, 1>>)                                   \* clipped: beta + 2k(-beta/2k)
 
-Mult(l) == IF Ty(l) = LGI THEN Beta(l, n[l]) ELSE IF Ty(l) = LGE THEN Lam(l, n[l]) ELSE Fin(0)
+Mult(l) == IF Ty(l) = LGI THEN Beta(l, n[l]) ELSE IF Ty(l) = LGE THEN Lam(l, n[l]) ELSE Fin(<<0, 1>>)
 
 (* the documented expression of every type: what level l adds at probe x, for a defined       *)
 (* condition value c; pk = k*h^n (the doc's 2k*h^n of the inequality types is written 2*pk)   *)
 Added(l, x) ==
-  LET L  == Lv(l)
-      c  == C(l, x)
-      pk == L.k * Pow(L.h, n[l])
-      upk == IF L.k = INF THEN PInf ELSE IntV(pk)
-      m  == Mult(l)
-  IN CASE L.ty = QE  -> IntV(pk * c * c)
-       [] L.ty = LE  -> IntV(pk * Abs(c))
-       [] L.ty = UE  -> IF c # 0 THEN upk ELSE IntV(0)
-       [] L.ty = UI  -> IF c > 0 THEN upk ELSE IntV(0)
-       [] L.ty = BI  -> IF c >= 0 THEN PInf              \* violated, or -log(0)/pk on the boundary
-                        ELSE NegLog(-c, 2 * pk)
-       [] L.ty = QI  -> IntV(2 * pk * Max2(0, c) * Max2(0, c))
-       [] L.ty = LI  -> IntV(2 * pk * Max2(0, c))
-       [] L.ty = LGI -> IF m.inf THEN Add(IntV(pk * c * c), InfTimes(c))      \* mpf = max(-inf, c) = c
-                        ELSE IF 2 * pk * c >= -(m.v) THEN IntV(pk * c * c + m.v * c)   \* mpf = c
-                        ELSE Rat(-(m.v * m.v), 4 * pk)                      \* mpf = -beta/2pk
-       [] L.ty = LGE -> IF m.inf THEN Add(IntV(pk * c * c), InfTimes(c))
-                        ELSE IntV(pk * c * c + m.v * c)
+  LET L   == Lv(l)
+      c   == CQ(l, x)
+      pk  == PK(l, n[l])
+      e   == EOf(l)
+      \* the uniform types' constant: float(k)*pow(h,n); inf*0 would be NaN (h = 0: not in the catalogues)
+      upk == IF L.k = INF THEN PInf ELSE ValQ(pk, e)
+      m   == Mult(l)
+      two == <<2, 1>>
+      quad == QMul(pk, QSq(c))                                              \* pk*c^2
+  IN CASE L.ty = QE  -> ValQ(quad, e)
+       [] L.ty = LE  -> ValQ(QMul(pk, QAbs(c)), e)
+       [] L.ty = UE  -> IF c[1] # 0 THEN upk ELSE IntV(0)
+       [] L.ty = UI  -> IF c[1] > 0 THEN upk ELSE IntV(0)
+       [] L.ty = BI  -> IF c[1] >= 0 THEN PInf          \* violated, or -log(0)/(2pk) on the boundary
+                        \* -log(-c * 2^se) / (2pk * 2^ke)
+                        ELSE LogV(<< <<-c[1], pk[2], 2 * pk[1]>> >>
+                                  \o (IF c[2] # 1 THEN << <<c[2], -pk[2], 2 * pk[1]>> >> ELSE << >>)
+                                  \o (IF SE # 0 THEN << <<2, SE * pk[2], 2 * pk[1]>> >> ELSE << >>), e)
+       [] L.ty = QI  -> ValQ(QMul(QMul(two, pk), QSq(QMax0(c))), e)
+       [] L.ty = LI  -> ValQ(QMul(QMul(two, pk), QMax0(c)), e)
+       [] L.ty = LGI -> IF m.inf THEN Add(ValQ(quad, e), InfTimes(c[1]))      \* mpf = max(-inf, c) = c
+                        ELSE IF QLe(QNeg(m.v), QMul(QMul(two, pk), c))
+                             THEN ValQ(QAdd(quad, QMul(m.v, c)), e)           \* mpf = c
+                             ELSE ValQ(QNeg(QDivPos(QSq(m.v), QMul(<<4, 1>>, pk))), e)   \* mpf = -beta/2pk
+       [] L.ty = LGE -> IF m.inf THEN Add(ValQ(quad, e), InfTimes(c[1]))
+                        ELSE ValQ(QAdd(quad, QMul(m.v, c)), e)
 
 (* the evaluator returns inf *without calling the decorated function* in these two cases *)
 ShortCircuit(l, x) == C(l, x) = ZD \/ (Ty(l) = BI /\ C(l, x) > 0)
@@ -171,13 +256,13 @@ EvalFrom(j, x) ==
   ELSE Add(Added(j, x), EvalFrom(j + 1, x))
 
 (* F[j].error(x) squared: own violation^2 + (error of the decorated penalty)^2; ZD -> inf *)
-Viol(l, x) == IF IsEq(Ty(l)) THEN Abs(C(l, x)) ELSE Max2(0, C(l, x))
+Viol(l, x) == IF IsEq(Ty(l)) THEN QAbs(CQ(l, x)) ELSE QMax0(CQ(l, x))
+Viol2V(l, x) == ValQ(QSq(Viol(l, x)), 2 * SE)
 RECURSIVE Err2From(_, _)
 Err2From(j, x) ==
-  IF j > D THEN 0
-  ELSE IF C(j, x) = ZD THEN INF
-  ELSE LET inner == Err2From(j + 1, x)
-       IN IF inner = INF THEN INF ELSE Viol(j, x) * Viol(j, x) + inner
+  IF j > D THEN IntV(0)
+  ELSE IF C(j, x) = ZD THEN PInf
+  ELSE Add(Viol2V(j, x), Err2From(j + 1, x))
 
 (* F[j].iter(i): own counter, then `if hasattr(_f[0],'iter'): _f[0].iter(i)` with the same i *)
 RECURSIVE IterFrom(_, _, _)
@@ -208,17 +293,19 @@ StoreFrom(yy, j, x, i) ==
 
 RECURSIVE SumLen(_, _)
 SumLen(yy, l) == IF l > D THEN 0 ELSE Len(yy[l]) + SumLen(yy, l + 1)
+RECURSIVE SumNZ(_, _)
+SumNZ(yy, l) == IF l > D THEN 0 ELSE Cardinality({q \in 1..Len(yy[l]) : yy[l][q] # 0}) + SumNZ(yy, l + 1)
 
 -----------------------------------------------------------------------------
 (* the machine *)
-Init == /\ cid \in {c \in 1..Len(ChainSeq) : c % NParts = MyPart}
+Init == /\ cid \in {c \in 1..Len(ChainSeq) : PartOf(c) = MyPart}
         /\ n  = [l \in 1..Len(ChainSeq[cid].lv) |-> 0]
         /\ ys = [l \in 1..Len(ChainSeq[cid].lv) |-> << >>]
         /\ last = [op |-> "New", j |-> 0, x |-> 0, i |-> None, ret |-> IntV(0)]
 
 Call(op, j, x, i, ret) == [op |-> op, j |-> j, x |-> x, i |-> i, ret |-> ret]
 
-IterOK(j, i) == i = None => \A l \in j..D : n[l] < MaxN
+IterOK(j, i) == i = None => \A l \in j..D : n[l] < MaxN /\ n[l] \in IncDom
 Iter(j, i) == /\ IterOK(j, i)
               /\ n' = IterFrom(n, j, i)
               /\ last' = Call("Iter", j, 0, i, IntV(0))
@@ -230,7 +317,9 @@ Clear(j) == LET s == ClearFrom([nn |-> n, yy |-> ys], j)
                /\ UNCHANGED cid
 
 StoreOK(j, x, i) == LET yy == StoreFrom(ys, j, x, i)
-                    IN (\A l \in 1..D : Len(yy[l]) <= MaxLen) /\ SumLen(yy, 1) <= Chain.ms
+                    IN /\ \A l \in 1..D : Len(yy[l]) <= MaxLen
+                       /\ SumLen(yy, 1) <= Chain.ms
+                       /\ (IF Chain.mz = NoBound THEN TRUE ELSE SumNZ(yy, 1) <= Chain.mz)
 Store(j, x, i) == /\ StoreOK(j, x, i)
                   /\ ys' = StoreFrom(ys, j, x, i)
                   /\ last' = Call("Store", j, x, i, IntV(0))
@@ -239,7 +328,7 @@ Store(j, x, i) == /\ StoreOK(j, x, i)
 Eval(j, x) == /\ last' = Call("Eval", j, x, None, EvalFrom(j, x))
               /\ UNCHANGED <<cid, n, ys>>
 
-Error(j, x) == /\ last' = Call("Error", j, x, None, IF Err2From(j, x) = INF THEN PInf ELSE IntV(Err2From(j, x)))
+Error(j, x) == /\ last' = Call("Error", j, x, None, Err2From(j, x))
                /\ UNCHANGED <<cid, n, ys>>
 
 IterAny  == \E j \in 1..D : \E i \in IterArgs \cup {None} : Iter(j, i)
@@ -264,7 +353,10 @@ OnlyLagrangeStores == \A l \in 1..D : ~IsLag(Ty(l)) => ys[l] = << >>
 Defined(l, x)  == C(l, x) # ZD
 Feasible(l, x) == Defined(l, x) /\ (IF IsEq(Ty(l)) THEN C(l, x) = 0 ELSE C(l, x) <= 0)
 Violated(l, x) == Defined(l, x) /\ ~Feasible(l, x)
-NoMult(l)      == ~Mult(l).inf /\ Mult(l).v = 0
+NoMult(l)      == ~Mult(l).inf /\ Mult(l).v[1] = 0
+(* the premise of "strictly positive": the current multiplier k*h^n is (k = 0, or h = 0 after *)
+(* the first iteration, switch a penalty off: the documented expression is then 0)            *)
+PKPos(l)       == Lv(l).k = INF \/ PK(l, n[l])[1] > 0
 
 (* the types whose documented formula vanishes on the feasible set: quadratic, linear, uniform  *)
 (* of both kinds, and the Lagrange types while no multiplier has been accumulated               *)
@@ -272,16 +364,19 @@ DocZero(l) == Ty(l) \in {QE, LE, UE, UI, QI, LI} \/ (IsLag(Ty(l)) /\ NoMult(l))
 
 (* no added penalty exactly on the feasible set *)
 ZeroOnFeasible ==
-  \A l \in 1..D : \A x \in X : (DocZero(l) /\ Defined(l, x)) => (Feasible(l, x) <=> IsZero(Added(l, x)))
+  \A l \in 1..D : \A x \in X : (DocZero(l) /\ Defined(l, x)) =>
+      LET z == IsZero(Added(l, x))
+      IN /\ Feasible(l, x) => z
+         /\ (PKPos(l) /\ z) => Feasible(l, x)
 
 (* a strictly positive amount wherever violated (all types; lagrange_equality once it carries a *)
 (* multiplier adds lam*f(x), which has the sign of lam*f(x): excluded by the documented formula)*)
 PositiveWhenViolated ==
   \A l \in 1..D : \A x \in X :
-     (Violated(l, x) /\ ~(Ty(l) = LGE /\ ~NoMult(l))) => IsPos(Added(l, x))
+     (Violated(l, x) /\ PKPos(l) /\ ~(Ty(l) = LGE /\ ~NoMult(l))) => IsPos(Added(l, x))
 
 (* the inequality multiplier never goes negative, hence a feasible point is never penalised *)
-BetaNonNegative == \A l \in 1..D : Ty(l) = LGI => (Mult(l).inf \/ Mult(l).v >= 0)
+BetaNonNegative == \A l \in 1..D : Ty(l) = LGI => (Mult(l).inf \/ Mult(l).v[1] >= 0)
 LagIneqFeasibleNotPenalised ==
   \A l \in 1..D : \A x \in X : (Ty(l) = LGI /\ Feasible(l, x) /\ ~Mult(l).inf) => IsNonPos(Added(l, x))
 
@@ -291,20 +386,26 @@ RECURSIVE SumUp(_, _)     \* base + the own penalties of the m innermost levels
 SumUp(m, x) == IF m = 0 THEN IntV(Base(x)) ELSE Add(SumUp(m - 1, x), Added(D - m + 1, x))
 StackedAdd ==
   \A j \in 1..D : \A x \in X :
-     (\A l \in j..D : ~ShortCircuit(l, x)) => EvalFrom(j, x) = SumUp(D - j + 1, x)
+     (\A l \in j..D : ~ShortCircuit(l, x)) => VEq(EvalFrom(j, x), SumUp(D - j + 1, x))
 
 (* a condition that divides by zero yields an infinite penalty and an infinite error *)
 ZeroDivisionInfinite ==
-  \A j \in 1..D : \A x \in X : C(j, x) = ZD => (EvalFrom(j, x) = PInf /\ Err2From(j, x) = INF)
+  \A j \in 1..D : \A x \in X : C(j, x) = ZD => (EvalFrom(j, x) = PInf /\ Err2From(j, x) = PInf)
 
 (* error(x) is the violation magnitude: zero iff every condition from level j down is satisfied *)
 RECURSIVE SumViol2(_, _)
-SumViol2(j, x) == IF j > D THEN 0 ELSE Viol(j, x) * Viol(j, x) + SumViol2(j + 1, x)
+SumViol2(j, x) == IF j > D THEN <<0, 1>> ELSE QAdd(QSq(Viol(j, x)), SumViol2(j + 1, x))
 ErrorIsViolation ==
   \A j \in 1..D : \A x \in X :
-     IF \E l \in j..D : ~Defined(l, x) THEN Err2From(j, x) = INF
-     ELSE /\ Err2From(j, x) = SumViol2(j, x)
-          /\ (Err2From(j, x) = 0 <=> \A l \in j..D : Feasible(l, x))
+     LET e2 == Err2From(j, x)
+     IN IF \E l \in j..D : ~Defined(l, x) THEN e2 = PInf
+        ELSE /\ e2 = ValQ(SumViol2(j, x), 2 * SE)
+             /\ (IsZero(e2) <=> \A l \in j..D : Feasible(l, x))
+
+(* every observable value of the catalogue is one the harness can render: no sum of finite   *)
+(* terms with different binary exponents                                                      *)
+Representable ==
+  \A j \in 1..D : \A x \in X : EvalFrom(j, x).t # "mix" /\ Err2From(j, x).t # "mix"
 
 -----------------------------------------------------------------------------
 (* C15 on the design: action properties (last' names the call that made the step) *)
@@ -346,14 +447,15 @@ ObserversPure == [][last'.op \in {"Eval", "Error"} => UNCHANGED <<cid, n, ys>>]_
 -----------------------------------------------------------------------------
 (* emission for the replay (spec -> code): the catalogue once, then every reachable state with  *)
 (* everything observable in it and every state-changing call enabled in it with its post-state  *)
-TCode(v) == CASE v.t = "fin" -> 0 [] v.t = "inf" -> 1 [] v.t = "ninf" -> 2 [] v.t = "nan" -> 3
-VT(v) == <<TCode(v), v.n, v.d, v.lg>>
+TCode(v) == CASE v.t = "fin" -> 0 [] v.t = "inf" -> 1 [] v.t = "ninf" -> 2 [] v.t = "nan" -> 3 [] v.t = "mix" -> 4
+VT(v) == <<TCode(v), v.n, v.d, v.lg, v.e>>
 
+(* st: numerators of the stored values (denominator CondDen, scale 2^se as the level's condition);   *)
+(* stored(i) = st[i+1] for an index inside the list                                                 *)
 Obs == [l \in 1..D |->
           [it |-> n[l], st |-> ys[l],
-           sti |-> [i \in 1..(MaxLen + 1) |-> StoredAt(l, i - 1)],
            ev |-> [x \in X |-> VT(EvalFrom(l, x))],
-           er |-> [x \in X |-> Err2From(l, x)]]]
+           er |-> [x \in X |-> VT(Err2From(l, x))]]]
 
 Succ ==
        {<<"I", j, 0, i, IterFrom(n, j, i), ys>> : j \in 1..D, i \in IterArgs \cup {None}}
@@ -364,7 +466,8 @@ SuccEnabled == {s \in Succ : CASE s[1] = "I" -> IterOK(s[2], s[4])
                                [] s[1] = "S" -> StoreOK(s[2], s[3], s[4])
                                [] OTHER -> TRUE}
 
-ASSUME PrintT(<<"@@", ToJson([catalogue |-> ChainSeq, types |-> TypeName, cond |-> CondTab, base |-> BaseTab,
+ASSUME PrintT(<<"@@", ToJson([catalogue |-> ChainSeq, types |-> TypeName, cond |-> CondTab, den |-> CondDen,
+                               base |-> BaseTab,
                                nparts |-> NParts, part |-> MyPart, inf |-> INF, zd |-> ZD, none |-> None,
                                maxlen |-> MaxLen])>>)
 
